@@ -488,8 +488,8 @@ def _scale_iqr(
     """
     data = np.asanyarray(data, dtype=np.float64)
     norm = 1.3489795003921634  # scipy.stats.norm.ppf(0.75) - scipy.stats.norm.ppf(0.25)
-    percentiles = np.percentile(data, [25, 75], axis=axis, keepdims=True)
-    return np.squeeze(np.diff(percentiles, axis=0) / norm)
+    q25, q75 = np.percentile(data, [25, 75], axis=axis)
+    return (q75 - q25) / norm
 
 
 def _scale_mad(
@@ -520,13 +520,14 @@ def _scale_mad(
     norm = 0.6744897501960817  # scipy.stats.norm.ppf(0.75)
     norm_aad = np.sqrt(2 / np.pi)
     loc = np.median(data, axis=axis, keepdims=True)
-    mad = np.median(np.abs(data - loc), axis=axis, keepdims=True) / norm
+    # Only the reduced axes are dropped (a length-1 axis of the data is kept)
+    mad = np.median(np.abs(data - loc), axis=axis) / norm
     # Handle zero MAD case using np.isclose for stability
     is_zero_mad = np.isclose(mad, 0)
     if np.any(is_zero_mad):
-        aad = np.mean(np.abs(data - loc), axis=axis, keepdims=True) / norm_aad
+        aad = np.mean(np.abs(data - loc), axis=axis) / norm_aad
         mad = np.where(is_zero_mad, aad, mad)
-    return np.squeeze(mad)
+    return mad
 
 
 def _scale_doublemad(
